@@ -32,7 +32,7 @@ struct Problem {
 Problem gen_problem(Tape& t, int N) {
   Problem p;
   p.T.resize(N);
-  for (auto& x : p.T) x = (8 + t.range(0, 56)) / 16.0;  // 0.5 .. 4 s
+  for (auto& x : p.T) x = 0.5 + t.range(0, 3584) / 1024.0;  // 0.5 .. 4 s on a 1/1024 grid (a 1/16 grid never came within 5 % of T = 1, where the default time map switches branch: seeded C09-3)
   p.P.resize(N + 1, D);
   for (int i = 0; i <= N; ++i) for (int d = 0; d < D; ++d) p.P(i, d) = t.sym(320) / 32.0;
   // every boundary field non-zero so that a pinned field is distinguishable from a default
